@@ -271,3 +271,17 @@ func (r *sqlRows) Next(dest []driver.Value) error {
 	r.i++
 	return nil
 }
+
+// Raw returns the stored key_record text (second-resolution timestamp key).
+func (d *SQLDB) Raw(id string, created int64) (string, bool) {
+	r, ok := d.rows[id][created]
+	return r, ok
+}
+
+// PutRaw inserts a row directly (an independent writer).
+func (d *SQLDB) PutRaw(id string, created int64, rec string) {
+	if d.rows[id] == nil {
+		d.rows[id] = map[int64]string{}
+	}
+	d.rows[id][created] = rec
+}
